@@ -70,6 +70,19 @@ fn check_case(c: &SeqCase, obs: &mut Obs) -> Verdict {
             Err(p) => return Verdict::Fail(format!("patience over coarse-hash items: {}", p)),
         }
     }
+    // different element types on the two sides, hashing differently for equal values
+    {
+        let oa: Vec<u64> = c.old.iter().map(|x| *x as u64).collect();
+        let na: Vec<items::Id32> = c.new.iter().map(|x| items::Id32(*x)).collect();
+        let alg = alg_of(c.alg);
+        let mut c0 = c.clone();
+        c0.mode = 0;
+        match (guard(|| similar::capture_diff(alg, &oa[..], c.old_r(), &na[..], c.new_r())), capture(&c0, None)) {
+            (Ok(o), Ok(b)) if o == b => {}
+            (Ok(o), Ok(b)) => return Verdict::Fail(format!("patience with old items u64 / new items Id32 (PartialEq<u64>, unrelated Hash) gives {:?}, with u32 items {:?}", o, b)),
+            (Err(p), _) | (_, Err(p)) => return Verdict::Fail(format!("patience over asymmetric item types: {}", p)),
+        }
+    }
     let mut pairs_raw = vec![];
     for e in &ev {
         if let Ev::Equal(o, n, l) = *e {
